@@ -8,6 +8,7 @@
 
 mod c10;
 mod c11;
+mod c12;
 mod c13;
 mod c14;
 mod c18;
@@ -27,6 +28,7 @@ fn replay_dispatch(check: &str, v: &Value) -> Vec<(String, String)> {
     match check {
         "C10" => c10::replay_all(&v["case"]),
         "C11" => c11::replay_all(&v["case"]),
+        "C12" => c12::replay_all(&v["case"]),
         "C13" => c13::replay_all(&v["case"]),
         "C14" => c14::replay_all(&v["case"]),
         "C18" => c18::replay_all(&v["case"]),
@@ -74,6 +76,7 @@ fn main() {
         Some("C11") => c11::run(args.get(1).map(|s| s.as_str()).unwrap_or("quick"), seed),
         Some("C19") => c19::run(args.get(1).map(|s| s.as_str()).unwrap_or("quick"), seed),
         Some("C18") => c18::run(args.get(1).map(|s| s.as_str()).unwrap_or("quick"), seed),
+        Some("C12") => c12::run(args.get(1).map(|s| s.as_str()).unwrap_or("quick"), seed),
         Some("C13") => c13::run(args.get(1).map(|s| s.as_str()).unwrap_or("quick"), seed),
         Some("C14") => c14::run(args.get(1).map(|s| s.as_str()).unwrap_or("quick"), seed),
         _ => {
